@@ -148,7 +148,29 @@ Ltac break_match :=
 
 Ltac leaf := first [ reflexivity | say_error | (repeat split; reflexivity) ].
 
-Ltac crunch := repeat (ex; break_match); ex; leaf.
+Ltac on_exn e :=
+  unfold err_text; destruct (e_kind e) eqn:?K; ex;
+  try match goal with |- context [e_strerror e] => destruct (e_strerror e) eqn:?Se; ex end;
+  try match goal with H : e_kind e = _ |- _ => rewrite ?H end;
+  leaf.
+
+Ltac after_loop W L a0 rest :=
+  let i := fresh "i" in let o := fresh "o" in let E := fresh "E" in let file := fresh "file" in
+  let n1 := fresh "n1" in let n2 := fresh "n2" in let s := fresh "s" in let e := fresh "e" in let e2 := fresh "e2" in let text := fresh "text" in
+  destruct (split_first ".." a0) as [[i o]|] eqn:E; ex; rewrite ?E; ex; [| say_error];
+  destruct (mem i input_formats) eqn:?Mi; ex; [| say_error];
+  destruct (mem o output_formats) eqn:?Mo; ex; [| say_error];
+  destruct rest as [|file rest]; ex; [say_error |];
+  unfold lib_convert, lib_input;
+  destruct (String.eqb file "-") eqn:?Ef; ex;
+  [ destruct (lib_readStr L (w_stdin W) i) as [n1 [s|e]] eqn:?R; ex;
+    [ destruct (lib_writeStr L s o) as [n2 [text|e2]] eqn:?Wr; ex; [reflexivity | on_exn e2]
+    | on_exn e ]
+  | unfold lib_read; destruct (w_fs W file) as [?c | ?str ?se] eqn:?F; ex;
+    [ destruct (lib_parseFile L file c i) as [n1 [s|e]] eqn:?R; ex;
+      [ destruct (lib_writeStr L s o) as [n2 [text|e2]] eqn:?Wr; ex; [reflexivity | on_exn e2]
+      | on_exn e ]
+    | unfold err_text; ex; leaf ] ].
 
 Theorem main_table : forall argv W L, table_prop argv W L (main cli_spec argv W L).
 Proof.
@@ -172,6 +194,5 @@ Proof.
     destruct args as [|a0 rest]; ex.
     { destruct Henv as [-> | [o ->]]; reflexivity. }
     clear HF. cbn [st_env] in Henv.
-    unfold lib_convert, lib_input, lib_read, err_text.
-    destruct Henv as [-> | [o1 ->]]; cbn [env_set]; crunch.
+    destruct Henv as [-> | [o1 ->]]; cbn [env_set]; after_loop W L a0 rest.
 Qed.
